@@ -214,15 +214,15 @@ def run_all(d, case, gaf_kind, gfa_kind):
             gsi = pickle.load(f)
         out["gsi bgzip=%s" % bg] = {k: [c10.read_at(o, off, bg) for off in v] for k, v in sorted(gsi.items())}
     r = core.call(stat.run_stat, gaf, cigar_stat=True, output=d + "/stat.txt")
-    put("stat", r, core.read_text(d + "/stat.txt") if r[0] == "ok" else None)
+    put("stat", r, core.read_output(d + "/stat.txt", "stat") if r[0] == "ok" else None)
     sub = {"gfa": case["gfa"], "gaf": case["gaf"], "fasta": case["fasta"]}
     res, text = rc.run_realign(sub, d, platform=fakemp.Platform(fakemp.Chooser([])), cores=1, batch=3, sub="realigned.gaf",
                                gaf_name=os.path.basename(gaf), gfa_name=os.path.basename(gfa))
     put("realign", res, text)
     r = core.call(phase.run, gaf, d + "/h.tsv", d + "/phased.gaf")
-    put("phase", r, core.read_text(d + "/phased.gaf") if r[0] == "ok" else None)
+    put("phase", r, core.read_output(d + "/phased.gaf", "phase") if r[0] == "ok" else None)
     r = core.call(find_path.run, gfa, d + "/paths.txt", output=d + "/fp.txt", fasta=True)
-    put("find_path", r, core.read_text(d + "/fp.txt") if r[0] == "ok" else None)
+    put("find_path", r, core.read_output(d + "/fp.txt", "find_path") if r[0] == "ok" else None)
     nodes, links = models.nodes_from_gfa_text(case["gfa"])
     from vf.props import c06
 
